@@ -57,8 +57,11 @@ TP_CLASSES_NUM = ["int->int", "int->float", "float->int", "float->float"]
 
 
 def _dop_of(case: Dict[str, Any], name: str) -> Dict[str, Any]:
+    # PRECISION is a display hint and must not influence any conversion
+    prec = (case["bits"] % 3) if case["ptype"] in ("A_FLOAT32", "A_FLOAT64") and \
+        case["bits"] % 2 == 0 else None
     return odxgen.dop(name, odxgen.dct_std(case["itype"], case["bits"]), ptype=case["ptype"],
-                      compu=case["compu"])
+                      compu=case["compu"], precision=prec)
 
 
 def load_cases(cases: Sequence[Dict[str, Any]], with_requests: bool = True) -> Any:
